@@ -658,4 +658,133 @@ theorem specOK_fold (l : List Tk) (n : Nat) (hl : SpecToks false l) (hv : SpecVa
       · have := (hv t ht).2
         rw [Val.beq_str]; simpa using this
 
+/-! ## declarations -/
+
+/-- `specifiers init-declarator {, init-declarator} ;` -/
+structure Dcl where
+  specs : List Tk
+  first : IDc
+  more : List IDc
+
+namespace Dcl
+
+def body (dc : Dcl) : List Tk := dc.specs ++ (dc.first.flat ++ restFlat dc.more)
+def flat (dc : Dcl) : List Tk := dc.body ++ [("SEMI", ";")]
+def ntoks (dc : Dcl) : Nat := dc.specs.length + dc.first.ntoks + restNtoks dc.more + 1
+def fuel (dc : Dcl) : Nat := max (dc.specs.length + 1) (max dc.first.fuel (restFuel dc.more)) + 3
+
+/-- the declared names, in source order -/
+def names (dc : Dcl) : List String := dName dc.first.d :: dc.more.map fun it => dName it.d
+
+/-- the `_DeclInfo`s (`n`: position of the first specifier) -/
+def dis (n : Nat) (dc : Dcl) : List DI :=
+  dc.first.di (n + dc.specs.length) :: restDIs (n + dc.specs.length + dc.first.ntoks) dc.more
+
+/-- **the AST of the declaration**: one `Decl` per declarator -/
+def vals (n : Nat) (dc : Dcl) : List Val :=
+  match typeNames n dc.specs with
+  | [] => []
+  | p0 :: names => (dc.dis n).map (declOut (foldSpec n {} dc.specs) p0.2 (specNames p0 names))
+
+end Dcl
+
+structure WFDcl (dc : Dcl) : Prop where
+  specToks : SpecToks false dc.specs
+  specVals : SpecVals dc.specs
+  sawType : sawAfter false dc.specs = true
+  first : WFI dc.first
+  more : ∀ it ∈ dc.more, WFI it
+
+theorem restDIs_names : ∀ (its : List IDc) (n : Nat), (restDIs n its).map (·.x) = its.map fun it => dName it.d
+  | [], _ => rfl
+  | it :: r, n => by simp [restDIs, IDc.di, restDIs_names r]
+
+theorem declarator_head {d : D} (hwf : WFD d) (hn : NoParen d) :
+    ∃ k v r, d.flat = (k, v) :: r ∧ (k = "TIMES" ∨ k = "ID") := by
+  rw [flat_noParen hwf hn]
+  cases hst : dStars d with
+  | nil => exact ⟨_, _, _, rfl, .inr rfl⟩
+  | cons q r => exact ⟨_, _, _, rfl, .inl rfl⟩
+
+theorem sawAfter_ne_nil {l : List Tk} (h : sawAfter false l = true) : l ≠ [] := by
+  rintro rfl; simp [sawAfter] at h
+
+/-- **`_parse_decl_body`** -/
+theorem parse_declBody (dc : Dcl) (hwf : WFDcl dc) (hty : ∀ x ∈ dc.names, env.ty x = false) (s : PState) (rest : List Tk)
+    (hs : SeesT env s (dc.body ++ ("SEMI", ";") :: rest)) (F : Nat) (hF : dc.fuel ≤ F) :
+    ∃ s', run F .declBody s = .ok (dc.vals s.idx) s' ∧ SeesT env s' (("SEMI", ";") :: rest) ∧
+      s'.idx + 1 = s.idx + dc.ntoks := by
+  obtain ⟨G, rfl⟩ : ∃ G, F = G + 1 := ⟨F - 1, by simp only [Dcl.fuel] at hF; omega⟩
+  simp only [Dcl.fuel] at hF
+  obtain ⟨k1, v1, r1, hd1, hk1⟩ := declarator_head hwf.first.wfd hwf.first.noParen
+  -- the specifiers
+  have hs0 : SeesT env s (dc.specs ++ (dc.first.flat ++ (restFlat dc.more ++ ("SEMI", ";") :: rest))) := by
+    simpa [Dcl.body, List.append_assoc] using hs
+  have hfo : FollowSpec (dc.first.flat ++ (restFlat dc.more ++ ("SEMI", ";") :: rest)) := by
+    intro k v r h
+    simp only [IDc.flat, hd1, List.cons_append, List.append_assoc, List.cons.injEq, Prod.mk.injEq] at h
+    rw [← h.1.1]
+    rcases hk1 with rfl | rfl <;> decide
+  obtain ⟨s1, h1, hs1, hi1⟩ := specs_loop dc.specs {} false false none s _ G hwf.specToks hfo hs0 (by omega) (fun _ => rfl)
+  have hne := sawAfter_ne_nil hwf.sawType
+  have hsome : (if (false || !dc.specs.isEmpty) = true then some (foldSpec s.idx {} dc.specs) else none) =
+      some (foldSpec s.idx {} dc.specs) := by
+    cases hsp : dc.specs with
+    | nil => exact absurd hsp hne
+    | cons t r => rfl
+  rw [hsome, hwf.sawType] at h1
+  -- the first init-declarator and the others
+  obtain ⟨k2, v2, r2, hhd, hend⟩ := restFlat_head dc.more rest
+  rw [hhd] at hs1
+  have hs1' : SeesT env s1 ((k1, v1) :: (r1 ++ (match dc.first.init with | none => [] | some e => ("EQUALS", "=") :: e.flat) ++ (k2, v2) :: r2)) := by
+    simpa [IDc.flat, hd1, List.append_assoc] using hs1
+  obtain ⟨s2, h2, hs2, hi2, _⟩ := peekType_spec s1 _ hs1'
+  have hs2' : SeesT env s2 (dc.first.flat ++ (k2, v2) :: r2) := by simpa [IDc.flat, hd1, List.append_assoc] using hs2
+  obtain ⟨s3, h3, hs3, hi3⟩ := initDeclarator_ok dc.first hwf.first s2 (k2, v2) r2 hend hs2' G (by omega)
+  rw [← hhd] at hs3
+  obtain ⟨s4, h4, hs4, hi4⟩ := initList_loop dc.more [(dc.first.di s2.idx).info] s3 rest G hwf.more hs3 (by omega)
+  -- `_build_declarations`
+  obtain ⟨p0, names, htn, hok⟩ := specOK_fold dc.specs s.idx hwf.specToks hwf.specVals hwf.sawType
+  have e2 : s2.idx = s.idx + dc.specs.length := by omega
+  have e3 : s3.idx = s.idx + dc.specs.length + dc.first.ntoks := by omega
+  rw [e2] at h3 h4
+  rw [e3] at h4
+  have hnames : ∀ d ∈ dc.dis s.idx, env.ty d.x = false := by
+    intro d hd
+    apply hty
+    simp only [Dcl.dis, List.mem_cons] at hd
+    rcases hd with rfl | hd
+    · exact List.mem_cons_self
+    · have : d.x ∈ (restDIs (s.idx + dc.specs.length + dc.first.ntoks) dc.more).map (·.x) := List.mem_map_of_mem hd
+      rw [restDIs_names] at this
+      exact List.mem_cons_of_mem _ this
+  obtain ⟨s5, h5, hs5, hi5⟩ := buildDeclarations_ok (foldSpec s.idx {} dc.specs) p0 names hok
+    (dc.first.di (s.idx + dc.specs.length)) (restDIs (s.idx + dc.specs.length + dc.first.ntoks) dc.more) hnames s4 _ hs4
+  refine ⟨s5, ?_, hs5, by simp only [Dcl.ntoks]; omega⟩
+  have hstart : startsDeclarator false s1 = .ok true s2 := by
+    simp only [startsDeclarator, DeclSkel.bnd, h2, List.head?_cons, Option.map_some, DeclSkel.pur]
+    rcases hk1 with rfl | rfl <;> rfl
+  simp only [List.map_cons, List.singleton_append] at h4 h5
+  show pDeclBody (run G) s = _
+  simp only [pDeclBody, pDeclSpecs, DeclSkel.bnd]
+  have h1' : run G (.declSpecsLoop none false none) s = .ok (some (foldSpec s.idx {} dc.specs), true, firstCoord none s.idx dc.specs) s1 := h1
+  simp only [h1', requireSpec, Bool.not_true, Bool.false_and, Bool.false_eq_true, ↓reduceIte, DeclSkel.pur, pDeclBodyWithSpec,
+    DeclSkel.bnd, hstart, h3, h4, h5, Dcl.vals, htn, Dcl.dis, List.map_cons]
+
+/-- **`_parse_declaration`**: for every declaration of the fragment - any number of specifiers and of
+declarators, declarators of any length - the parser returns one `Decl` per declared name, in
+source order: the name, every specifier list complete and in order, the declarator's derivations
+in inside-out order around a `TypeDecl` that carries the qualifiers and the type-specifier names
+as spelled, the initializer; and consumes exactly the tokens of the declaration -/
+theorem parse_declaration (dc : Dcl) (hwf : WFDcl dc) (hty : ∀ x ∈ dc.names, env.ty x = false) (s : PState) (rest : List Tk)
+    (hs : SeesT env s (dc.flat ++ rest)) (F : Nat) (hF : dc.fuel + 1 ≤ F) :
+    ∃ s', run F .declaration s = .ok (dc.vals s.idx) s' ∧ SeesT env s' rest ∧ s'.idx = s.idx + dc.ntoks := by
+  obtain ⟨G, rfl⟩ : ∃ G, F = G + 1 := ⟨F - 1, by omega⟩
+  have hs0 : SeesT env s (dc.body ++ ("SEMI", ";") :: rest) := by simpa [Dcl.flat, List.append_assoc] using hs
+  obtain ⟨s1, h1, hs1, hi1⟩ := parse_declBody dc hwf hty s rest hs0 G (by omega)
+  obtain ⟨s2, h2, hs2, hi2⟩ := expect_same s1 "SEMI" ";" rest hs1
+  refine ⟨s2, ?_, hs2, by omega⟩
+  show pDeclaration (run G) s = _
+  simp [pDeclaration, DeclSkel.bnd, h1, h2, DeclSkel.pur]
+
 end PycModel.DeclParse
